@@ -1,5 +1,7 @@
 package main
 
+import "fmt"
+
 // Synthesis of DEFLATE streams block by block, independent of any compressor: stored blocks at
 // any bit offset, fixed blocks, dynamic blocks with arbitrary (complete or incomplete) code
 // shapes and arbitrary run-length coding of the header, plus one injected fault per family.
@@ -503,6 +505,9 @@ func (sp SynthSpec) Synthesize() (stream []byte, data []byte, strict bool, shape
 	}
 	if kinds == "E" {
 		return sp.synthWindowEdge(r)
+	}
+	if kinds == "B" {
+		return sp.synthEdgeEnd(r)
 	}
 	if kinds == "M" {
 		return sp.synthManyLong(r)
@@ -1043,4 +1048,74 @@ func (sp SynthSpec) synthZeroRuns(r *Rng) (stream []byte, data []byte, strict bo
 		shape += "Z"
 	}
 	return w.bytes(), out, strict, shape
+}
+
+// synthEdgeEnd: stored blocks bring the output to just below a multiple of the decoder's output
+// window (65536 + 32768k); then ONE short dynamic block over a tiny alphabet (1-2 bit codes, so that
+// its last literals and the end-of-block code share one packed lookup entry) ENDS exactly at the
+// edge, one byte before it, or one or two bytes after it.  Size&1 == 1: that block is the final
+// block (packed entries are then used only when enough input is buffered behind it: callers add a
+// long suffix); otherwise one more small dynamic block and an empty final fixed block follow.
+func (sp SynthSpec) synthEdgeEnd(r *Rng) (stream []byte, data []byte, strict bool, shape string) {
+	w := &bitW{}
+	strict = true
+	var out []byte
+	edge := 65536 + 32768*r.Intn(3)
+	nl := r.Range(1, 6)
+	end := edge + r.Range(-1, 2)
+	target := end - nl
+	for len(out) < target {
+		n := target - len(out)
+		if n > 65535 {
+			n = 65535
+		}
+		w.bits(0, 1)
+		w.bits(0, 2)
+		w.align()
+		w.bits(uint32(n), 16)
+		w.bits(uint32(^n&0xffff), 16)
+		d := make([]byte, n)
+		for i := range d {
+			d[i] = byte('a' + r.Intn(3))
+		}
+		w.buf = append(w.buf, d...)
+		out = append(out, d...)
+		shape += "S"
+	}
+	final := sp.Size&1 == 1
+	blocks := 1
+	if !final {
+		blocks = 2
+	}
+	for b := 0; b < blocks; b++ {
+		var toks []tok
+		usedL := make([]bool, 286)
+		usedD := make([]bool, 30)
+		usedL[256] = true
+		n := nl
+		if b > 0 {
+			n = r.Range(1, 5)
+		}
+		for k := 0; k < n; k++ {
+			c := byte('a' + r.Intn(2))
+			toks = append(toks, tok{Lit: c})
+			out = append(out, c)
+			usedL[c] = true
+		}
+		litLens, _, _ := codeFor(r, 286, usedL, 15, 0, 0, false)
+		distLens, _, _ := codeFor(r, 30, usedD, 15, 0, 0, false)
+		dynHeader(r, w, final && b == blocks-1, litLens, distLens, 1, 0, "")
+		writeTokens(w, toks, litLens, distLens, true)
+		shape += "D"
+		if !isComplete(litLens, 15) || !(isComplete(distLens, 15) || single1(distLens) || allZero(distLens)) {
+			strict = false
+		}
+	}
+	if !final {
+		w.bits(1, 1)
+		w.bits(1, 2)
+		w.bits(0, 7)
+		shape += "F"
+	}
+	return w.bytes(), out, strict, fmt.Sprintf("%s/end%+d", shape, end-edge)
 }
